@@ -4,6 +4,7 @@
    REAL rp2_decimal.py class body, operators and comparisons run on symbolic values.
 2. every f-string -> __vf_fstr__(parts...), identical for concrete parts, structured for symbolic ones
    (f-strings are evaluated in C and would flatten a proxy otherwise).
+3. int(x) -> __vf_int__(x): int() for ordinary values, the truncated symbolic integer for a symbolic number.
 Nothing in /repo is edited; the rewritten code is compiled from the file contents on every run.
 """
 import ast
@@ -29,6 +30,14 @@ class _T(ast.NodeTransformer):
                 a.name = "symx.vf_decimal"
                 if a.asname is None:
                     a.asname = "decimal"
+        return node
+
+    def visit_Call(self, node):
+        self.generic_visit(node)
+        # int(x) is evaluated in C and needs a real int back: routed through a helper that is int() for ordinary values and
+        # the truncated symbolic integer for a symbolic number
+        if isinstance(node.func, ast.Name) and node.func.id == "int" and len(node.args) == 1 and not node.keywords:
+            node.func = ast.copy_location(ast.Name("__vf_int__", ast.Load()), node.func)
         return node
 
     def visit_JoinedStr(self, node):
@@ -72,6 +81,7 @@ class _Loader(importlib.abc.Loader):
             tree = _T().visit(tree)
             ast.fix_missing_locations(tree)
             module.__dict__["__vf_fstr__"] = vf_time.vf_fstr
+            module.__dict__["__vf_int__"] = vf_time.vf_int
         code = compile(tree, self.path, "exec")
         LOADED[self.fullname] = self.path
         exec(code, module.__dict__)  # pylint: disable=exec-used
